@@ -11,7 +11,9 @@ import ScyllaVerif.Model.SerializedValuesC03
 * `token <cdc 0|1> <wire> <values…>` → `pk=… tok=… key=…`
 * `ptoken <cdc 0|1> <values…>`   → `calculate_token_for_partition_key`
 * `svnth <n1,n2,…> <values…>`    → the results of successive `nth(n_i)` calls on one `SerializedValues::iter()`
-* `sesspart schema=<0|1> seed=<s>` → the implementation's line (snapshot + operations) with the results recomputed by
+* `btoken <stmts> <rows>`          → `batchFirstToken` (`peek_first_token`): stmts = `;`-separated `U` | `P<cdc>:<ncols>:<wire>`,
+  rows = `;`-separated comma lists (`.` = empty row), `none` = no statements / no rows
+* `sesspart schema=<0|1|2> seed=<s>` → the implementation's line (snapshot + operations) with the results recomputed by
   `preparedPartitioner` / `boundCalculateToken` / `clusterComputeTokenChecked`
 * `pname <hex utf-8 name | N>`   → `parsed=<from_str> selected=<partitioner after unwrap_or_default>`
 Value syntax: hex, `-` (empty), `N` (null), `U` (unset), `z<len>x<hh>` (`len` bytes, byte `i` = `hh + 7 i mod 256`). -/
@@ -120,6 +122,20 @@ def sesspartOp (schemaP : SchemaSnapshot) (schemaT : TableSnapshot) (op : String
       let ps := match part with | .cdc => "cdc" | .murmur3 => "murmur3"
       s!"prep {ks} {t} {wire} {vals} {ps} {showTok tok}"
     | _, _ => "bad-op"
+  | ["cprep", ks, t, wire, vals, _part, _tok] =>
+    -- the same statement prepared through a CachingSession (first call: prepared and cached; second: from the cache)
+    match parseNatList wire, parseVals vals with
+    | some w, some values =>
+      let part := preparedPartitioner (some (bytesOf ks, bytesOf t)) schemaP
+      let tok := boundCalculateToken (part == .cdc) (pkIndexesOfWire w) values
+      let ps := match part with | .cdc => "cdc" | .murmur3 => "murmur3"
+      s!"cprep {ks} {t} {wire} {vals} {ps} {showTok tok}"
+    | _, _ => "bad-op"
+  | ["ptokp", ks, t, key, _res] =>
+    match parseVals key with
+    | some values =>
+      s!"ptokp {ks} {t} {key} {showCtok (clusterComputeTokenPreserialized schemaT (bytesOf ks) (bytesOf t) values)}"
+    | none => "bad-op"
   | ["ctok", ks, t, types, key, _res] =>
     match cdcFlag types, parseVals key with
     | some typesOk, some values =>
@@ -230,6 +246,25 @@ def run (case impl : String) : String :=
           | .item v buf' => go rest buf' (showV v :: acc)
       let buf := ScyllaVerif.SerializedValuesC03.encodeValues values
       " ".intercalate (go ks buf []) ++ " buf=" ++ toHex (be16 values.length ++ buf)
+    | _, _ => "bad-case"
+  | ["btoken", stmts, rows] =>
+    let parseStmt : String → Option BatchStmt := fun d =>
+      if d == "U" then some .unprepared
+      else match d.toList with
+        | 'P' :: rest =>
+          match (String.ofList rest).splitOn ":" with
+          | [c, n, w] =>
+            match cdcFlag c, n.toNat?, parseNatList w with
+            | some cdc, some ncols, some wire => some (.prepared cdc (pkIndexesOfWire wire) ncols)
+            | _, _, _ => none
+          | _ => none
+        | _ => none
+    let parseRow : String → Option (List RawValue) := fun r =>
+      if r == "." then some [] else (r.splitOn ",").mapM parseValue
+    let stmts? := if stmts == "none" then some [] else (stmts.splitOn ";").mapM parseStmt
+    let rows? := if rows == "none" then some [] else (rows.splitOn ";").mapM parseRow
+    match stmts?, rows? with
+    | some ss, some rs => showTok (batchFirstToken ss rs)
     | _, _ => "bad-case"
   | "sesspart" :: _ => sesspart impl
   | ["pname", name] =>
